@@ -41,7 +41,7 @@ def cases(tier, seed):
 
 def gate(agg):
     c = agg["cnt"]
-    need = ["percolate_calls", "strict_calls", "conflict_calls", "ldoi_tables", "single_driver_queries", "spaces:trap", "spaces:nontrap", "spaces:conflicting", "spaces:state", "exh2_space_checks", "model_spaces", "ambient_percolate_calls"]
+    need = ["percolate_calls", "strict_calls", "conflict_calls", "ldoi_tables", "single_driver_queries", "single_driver_queries_with_table", "spaces:trap", "spaces:nontrap", "spaces:conflicting", "spaces:state", "exh2_space_checks", "model_spaces", "ambient_percolate_calls"]
     return [f"monitor counter {k} is zero" for k in need if c.get(k, 0) == 0]
 
 
@@ -168,6 +168,18 @@ def _small(case, res, ref, bb):
             tgt = dict(list(l.items())[: rng.randint(1, max(1, len(l)))]) if l else {ref.idx[nm]: b}
         tn = ref.named(tgt)
         got = find_single_drivers(tn, ag)
+        # the same query with a caller-supplied LDOI table: same answer, table left untouched
+        import copy as _copy
+
+        snap = _copy.deepcopy(ld)
+        got_tab = find_single_drivers(tn, ag, LDOIs=ld)
+        res.c("single_driver_queries_with_table")
+        if got_tab != got:
+            res.v("single-drivers-table-vs-fresh", f"find_single_drivers({tn}) with a supplied LDOI table = {sorted(got_tab)}, without = {sorted(got)}", rules=rules)
+        if ld != snap:
+            bad = [k for k in snap if ld.get(k) != snap[k]]
+            res.v("ldoi-table-modified-by-query", f"find_single_drivers modified the caller's LDOI table at {bad[:3]}", rules=rules)
+            ld = snap
         exp = set()
         for nm, b in exp_keys:
             l = ref.named(ref.percolate_strict({ref.idx[nm]: b}))
